@@ -72,11 +72,16 @@ void remove_duplicate_include()
                   Chunk::Delete(temp);
                   Chunk::Delete(next);
 
-                  if (comment != eol)
+                  if (  comment != eol
+                     && comment->IsNotNullChunk())
                   {
                      Chunk::Delete(comment);
                   }
-                  Chunk::Delete(eol);
+
+                  if (eol->IsNotNullChunk())       // no newline after the last line of the file
+                  {
+                     Chunk::Delete(eol);
+                  }
                   break;
                }
                else
